@@ -192,7 +192,8 @@ class Target:
                 protos[f'nv_auto:{P.cname}'] = '\n'.join(P.auto_texts)
                 info.setdefault('auto_extracted_helpers', []).extend(sorted(P.auto_fns.values()))
             loops += [f'NV_LOOP_{P.cname}_{i}' for i in range(1, P.loops + 1)]
-            if not self.unwind:
+            # (not in targets that unwind their loops instead of giving them contracts: Target(unwind=N), loops=0, --unwind flags)
+            if not self.unwind and self.loops != 0 and not any('--unwind' in str(x) for x in self.cbmc_flags):
                 autoloops.update({f'NV_LOOP_{P.cname}_{i}': c for i, c in P.auto_loops.items()})
             src = astload.resolve_tu(f.tu)
             info['functions'].append({'c_name': f.cname, 'cxx': f.name, 'file': src, 'line': f.line,
